@@ -29,6 +29,7 @@ import (
 
 	"github.com/olareg/olareg"
 	"github.com/olareg/olareg/internal/verif/vh"
+	"github.com/olareg/olareg/internal/verif/vsync"
 )
 
 type hist struct {
@@ -241,6 +242,37 @@ func (h *hist) collect() {
 			h.touched = map[string]bool{}
 			allOld = true
 			w.T("AGE-ALL")
+			if h.pol.Grace > 0 && h.rng.Intn(2) == 0 {
+				// content that is old is uploaded again right before the collection: an acknowledged upload, so the
+				// content is young, whatever the store did with the bytes it already had
+				var cands []string
+				for d := range m.Stored {
+					if w.U.BlobByD[d] != nil {
+						cands = append(cands, d)
+					}
+				}
+				sort.Strings(cands)
+				if len(cands) > 0 {
+					b := w.U.BlobByD[cands[h.rng.Intn(len(cands))]]
+					ack := false
+					if h.rng.Intn(3) > 0 {
+						// through a session, the path that does not look for existing content first
+						rs := w.Do(vh.Req{Method: "POST", URL: "/v2/r/blobs/uploads/"})
+						if loc := rs.H.Get("Location"); rs.Status == 202 && loc != "" {
+							f := w.Do(vh.Req{Method: "PUT", URL: loc + "&digest=" + b.D, Body: b.B})
+							w.T("blob(session) r/%s=%d", b.Name, f.Status)
+							ack = f.Status == 201
+						}
+					} else {
+						ack = w.PushBlob("r", b).Status == 201
+					}
+					if ack {
+						h.young[b.D] = true
+						allOld = false
+						h.r.Count("reuploads_before_collection", 1)
+					}
+				}
+			}
 		}
 	}
 	RM, keepRM, PM, keepPM := h.spec()
@@ -1024,6 +1056,19 @@ func main() {
 	focus := r.Focus
 	if focus == "" {
 		focus = "C05"
+	}
+	if focus == "C05conc" {
+		if strings.HasPrefix(r.Variant(), "vsync") {
+			vsync.SetJitter(true, uint64(r.Seed)*0x9e3779b97f4a7c15+5)
+		}
+		nc := r.N(60, 3000)
+		vh.Parallel(nc, 8, func(i int) { concurrentGC(r, i) })
+		r.Require("concurrent_trials", int64(nc))
+		r.Require("concurrent_images_acknowledged", int64(nc*6))
+		r.Require("concurrent_final_pulls", int64(nc*4))
+		r.RequireDistinct("concurrent_cells", 8)
+		r.Finish("schedules: 3-5 clients push complete tagged images (own config and layer, a layer shared by all, sometimes mounted from another repository), look at and delete older ones, while collections with an aggressive policy (untagged collected, grace off) run continuously - through the hook or as the real ticker with a 2-6 ms period - on the memory and the directory store, built with the vsync shim (random yield or sleep at every lock operation); every acknowledged, tagged, undeleted image must pull completely right after the acknowledgement, later, and at the end; a case is one trial, distinct = store x trigger x policy cells", "concurrent_trials", "concurrent_cells")
+		return
 	}
 	n := r.N(300, 9000)
 	ns := 0
